@@ -20,6 +20,7 @@ def run(run, model):
     run.do(effects.handlers_rule, model, "C07.no-swallow")
     from . import fwd
     run.do(fwd.forwarding, model, "C07.forwarded", ("condition", "description", "location", "error"))
+    run.do(rec.lambda_location, model)
     run.minimum("C07.lazy", 14)
     run.minimum("C07.supported-forms", 22)
     run.minimum("C07.assembly", 24)
